@@ -309,22 +309,33 @@ NUM_HEADER = ("script;\nuse std::u128::*;\nuse std::math::*;\nuse std::flags::*;
 
 
 # ----------------------------------------------------------------------------- packages
-PER_PKG = {"u8": 1500, "u64": 1500, "u256": 400, "pair": 400}     # literals of wide element types fill the data section
+# Package size is bounded by the number of operations (helper calls): the data section of one program is limited to
+# 4096 words and literals of the wide element types fill it faster.
+PER_PKG_OPS = {"u8": 9000, "u64": 9000, "u256": 2400, "pair": 2400}
 
 
-def coll_packages(recs, prefix, per_pkg=None):
-    """recs: history records (each gets rec["id"] = its test key). Returns list of vh-exec package records and
-    a map (pkgid, testname) -> rec."""
+def coll_packages(recs, prefix, ops_per_pkg=None):
+    """recs: history records (each has rec["id"]). Returns list of vh-exec package records and a map
+    (pkgid, testname) -> rec."""
     groups = {}
     for r in recs:
         groups.setdefault((r["kind"], r["ety"]), []).append(r)
     pkgs, where = [], {}
     for (kind, ety), rs in sorted(groups.items()):
-        pp = per_pkg or PER_PKG[ety]
-        for b in range(0, len(rs), pp):
-            pid = "%s%s%s%03d" % (prefix, kind[0], {"u8": "b", "u64": "w", "u256": "q", "pair": "p"}[ety], b // pp)
+        budget = ops_per_pkg or PER_PKG_OPS[ety]
+        chunks, cur, used = [], [], 0
+        for r in rs:
+            if cur and used + len(r["ops"]) > budget:
+                chunks.append(cur)
+                cur, used = [], 0
+            cur.append(r)
+            used += len(r["ops"])
+        if cur:
+            chunks.append(cur)
+        for b, chunk in enumerate(chunks):
+            pid = "%s%s%s%03d" % (prefix, kind[0], {"u8": "b", "u64": "w", "u256": "q", "pair": "p"}[ety], b)
             src = coll_header(kind, ety)
-            for n, r in enumerate(rs[b:b + pp]):
+            for n, r in enumerate(chunk):
                 name = "h%04d" % n
                 src += render_history(name, r)
                 where[(pid, name)] = r
